@@ -339,6 +339,26 @@ def entries_for(pid):
         add("c2.decrypt_packet", c2.decrypt_packet, [[A(x, ak_, hk) for x in row] for row in pk])
         add("c2.decrypt_packet(keys)", c2.decrypt_packet, [[A(row[0], k, hk, verify=False) for k in (ak_, ak_[::-1])] for row in pk])
         add("c2.derive_aes_hmac_keys", c2.derive_aes_hmac_keys, [[A(r + t) for t in (b"\x00", b"\x01")] for r in (b"A" * 15, bytes(range(15)))])
+    if pid == "C06":
+        import random as _r
+
+        from Crypto.PublicKey import RSA
+
+        ks = [RSA.generate(1024, randfunc=_r.Random(61 + i).randbytes) for i in (0, 1)]
+
+        def md(bid, info):
+            m = c2.BeaconMetadata()
+            m.magic, m.ansi_cp, m.oem_cp, m.bid, m.pid, m.flag = 0xBEEF, 1252, 437, bid, 4242, 6
+            m.aes_rand = bytes(range(bid % 7, bid % 7 + 16))
+            m.ip, m.ver_major, m.ver_minor, m.ver_build, m.info = 0x0100007F, 10, 0, 19045, info
+            return m
+
+        # (ciphertexts are made here, once, before the processes fork: the padding is random)
+        blobs = [[c2.encrypt_metadata(md(1000 + 2 * a, b"PC\tuser\t" + t), ks[a].publickey()) for t in (b"a.exe", b"b.exe")] for a in (0, 1)]
+        add("c2.decrypt_metadata", lambda blob, k: c2.decrypt_metadata(blob, ks[k]), [[A(x, a) for x in row] for a, row in enumerate(blobs)])
+        add("c2.decrypt_metadata(key)", lambda blob, k: c2.decrypt_metadata(blob, ks[k]), [[A(blobs[a][0], k) for k in ((a, 1 - a))] for a in (0, 1)])
+        add("BeaconKeys.from_aes_rand", lambda r, **kw: (lambda k: (k.aes_key, k.hmac_key, k.iv))(c2.BeaconKeys.from_aes_rand(r, **kw)),
+            [[A(r, iv=i) for i in (b"abcdefghijklmnop", b"ponmlkjihgfedcba")] for r in (bytes(range(16)), bytes(range(1, 17)))])
     if pid == "C04":
         steps = [[[("BASE64", True), ("PREPEND", b"SESSION="), ("HEADER", h)] for h in (b"Cookie", b"X-Id")], [[("NETBIOS", True), ("PARAMETER", p)] for p in (b"id", b"ie")]]
         add("HttpDataTransform.transform", lambda st, d: c2.HttpDataTransform(st, build="metadata").transform(c2.C2Data(metadata=d)), [[A(x, b"\x01\x02meta") for x in row] for row in steps])
